@@ -165,6 +165,11 @@ type attr struct {
 	value string
 	// ambiguousValue indicates whether value contains an ambiguous value due to context-joining.
 	ambiguousValue bool
+	// dynamicStart indicates whether an action has been interpolated at the very start of the
+	// attribute value, that is, while value was still empty. For example, in
+	//    <a href="{{.X}}{{.Y}}">
+	// dynamicStart is false at "{{.X}}" and true at "{{.Y}}".
+	dynamicStart bool
 	// names contains all possible names the attribute could assume because of context joining.
 	// For example, after joining the contexts in the "if" and "else" branches of
 	//     <a {{if .C}}title{{else}}name{{end}}="foo">
